@@ -134,8 +134,11 @@ Section Monitor.
   Lemma step_none s l s' t : SF.step s l = Some s' -> SF.thr s t = None ->
     match SF.thr s' t with None => True | Some tb => needs_yes (SF.t_pc tb) = false end.
   Proof.
-    intros Hs Ht. destruct l; cbn [SF.step] in Hs.
-    - destruct (SF.thr s t0) as [th0|] eqn:Ht0; [|discriminate].
+    intros Hs Ht.
+    (* robust against new environment labels: every label other than a goroutine's step / an
+       arrival leaves [thr] alone *)
+    destruct l; cbn [SF.step] in Hs.
+    1:{ destruct (SF.thr s t0) as [th0|] eqn:Ht0; [|discriminate].
       assert (Ne : t <> t0) by (intros ->; congruence).
       unfold SF.thread_step in Hs.
       destruct (SF.t_pc th0); destruct a; try discriminate; SFP.split_step Hs; inv Hs;
@@ -144,15 +147,12 @@ Section Monitor.
       (* the spawn *)
       destruct (Nat.eq_dec t b) as [->|Nb].
       + rewrite SFP.upd_same. reflexivity.
-      + rewrite SFP.upd_other by exact Nb. rewrite SFP.upd_other by exact Ne. rewrite Ht. exact I.
-    - apply SFP.guard_some in Hs as [_ Hs]. inv Hs. cbn [SF.thr SF.set_thr].
+      + rewrite SFP.upd_other by exact Nb. rewrite SFP.upd_other by exact Ne. rewrite Ht. exact I. }
+    1:{ apply SFP.guard_some in Hs as [_ Hs]. inv Hs. cbn [SF.thr SF.set_thr].
       destruct (Nat.eq_dec t t0) as [->|Ne].
       + rewrite SFP.upd_same. reflexivity.
-      + rewrite SFP.upd_other by exact Ne. rewrite Ht. exact I.
-    - apply SFP.guard_some in Hs as [_ Hs]. inv Hs. cbn. rewrite Ht. exact I.
-    - inv Hs. cbn. rewrite Ht. exact I.
-    - inv Hs. cbn. rewrite Ht. exact I.
-    - inv Hs. cbn. rewrite Ht. exact I.
+      + rewrite SFP.upd_other by exact Ne. rewrite Ht. exact I. }
+    all: try (apply SFP.guard_some in Hs as [_ Hs]); inv Hs; cbn; rewrite Ht; exact I.
   Qed.
 
   (** ** the invariant: every goroutine's effects so far pass the monitor *)
@@ -191,18 +191,17 @@ Section Monitor.
                   (needs_yes (SF.t_pc th) = true -> st = Some (nm (SF.t_name th), true))
               end).
     { intros Hne. rewrite (Hlog Hne). pose proof (HI t) as Ht. destruct (SF.thr s t) as [th|] eqn:E.
-      - destruct l as [t0 a|t0 n| | | |].
-        + rewrite (SFP.frame s _ s' t Hs (fun e => Hne t0 a eq_refl (eq_sym e)) th E). exact Ht.
-        + rewrite (SFP.frame s _ s' t Hs I th E). exact Ht.
-        + rewrite (SFP.frame s _ s' t Hs I th E). exact Ht.
-        + rewrite (SFP.frame s _ s' t Hs I th E). exact Ht.
-        + rewrite (SFP.frame s _ s' t Hs I th E). exact Ht.
-        + rewrite (SFP.frame s _ s' t Hs I th E). exact Ht.
+      - assert (F : SF.thr s' t = Some th).
+        { apply (SFP.frame s l s' t Hs); [|exact E]. destruct l; try exact I.
+          intros e. exact (Hne _ _ eq_refl (eq_sym e)). }
+        rewrite F. exact Ht.
       - pose proof (step_none s l s' t Hs E) as Hn. destruct (SF.thr s' t) as [tb|]; [|exact Ht].
         rewrite Ht. exists None. split; [reflexivity|]. rewrite Hn. discriminate. }
-    destruct l as [t0 a|t0 n| | | |]; try (apply Hother; intros; discriminate).
+    assert (Hcase : (exists t0 a, l = SF.LThread t0 a) \/ (forall t0 a, l <> SF.LThread t0 a))
+      by (destruct l; try (right; intros; discriminate); left; eauto).
+    destruct Hcase as [(t0 & a & ->)|Hno]; [|apply Hother; intros t0 a E; exfalso; exact (Hno t0 a E)].
     destruct (Nat.eq_dec t t0) as [->|Ne].
-    - cbn [SF.step] in Hs. destruct (SF.thr s t0) as [th0|] eqn:Ht0; [|discriminate].
+    - pose proof Hs as Hs0. cbn [SF.step] in Hs0. destruct (SF.thr s t0) as [th0|] eqn:Ht0; [|discriminate].
       apply (Hmove t0 a th0 eq_refl); [|reflexivity]. exact Ht0.
     - apply Hother. intros t1 a1 E. inv E. exact Ne.
   Qed.
@@ -242,7 +241,11 @@ Section Monitor.
           intros e. exact (Hne t0 a eq_refl (eq_sym e)). }
         rewrite F. exact H1.
       - destruct (SF.thr s' t); [rewrite H1; intros e []|exact H1]. }
-    destruct l as [t0 a|t0 n0| | | |]; try (apply Hother; [reflexivity | intros; discriminate]).
+    assert (Hcase : (exists t0 a, l = SF.LThread t0 a) \/ (forall t0 a, l <> SF.LThread t0 a))
+      by (destruct l; try (right; intros; discriminate); left; eauto).
+    destruct Hcase as [(t0 & a & ->)|Hno].
+    2:{ apply Hother; [destruct l; try reflexivity; exfalso; eapply Hno; reflexivity
+                      | intros t0 a E; exfalso; exact (Hno t0 a E)]. }
     pose proof Hs as Hs0. cbn [SF.step] in Hs. destruct (SF.thr s t0) as [th0|] eqn:Ht0; [|discriminate].
     destruct (Nat.eq_dec t t0) as [->|Ne].
     - pose proof (HI t0) as H0. rewrite Ht0 in H0.
